@@ -298,6 +298,22 @@ pub fn gen_ops(cfg: &Cfg, double: bool, m: &Model, back_offered: bool, out: &mut
                         }
                     }
                 }
+                if n > 3 {
+                    // two writes (lowest / highest priority) at every pair of positions: a re-sift
+                    // of one element at a time is only sound for a single misplaced element
+                    let lo = *cfg.prios.iter().min().unwrap();
+                    let hi = *cfg.prios.iter().max().unwrap();
+                    for i in 0..n {
+                        for j in (i + 1)..n {
+                            for (p1, p2) in [(lo, lo), (lo, hi), (hi, lo), (hi, hi)] {
+                                let mut steps = vec![ImStep { back: false, prio: None, payload: None }; j + 1];
+                                steps[i].prio = Some(p1);
+                                steps[j].prio = Some(p2);
+                                out.push(Op::IterMut { steps, end, via_ref });
+                            }
+                        }
+                    }
+                }
                 if dirs.len() > 1 && n >= 2 {
                     // alternate the two ends over the whole queue, writing at the last step
                     for &p in &cfg.prios {
@@ -311,7 +327,37 @@ pub fn gen_ops(cfg: &Cfg, double: bool, m: &Model, back_offered: bool, out: &mut
             }
         }
     }
-    if a & A_EXTEND != 0 {
+    if a & A_EXTEND != 0 && cfg.k > 6 {
+        // deep receivers: a structured family, each with a hint below and above the
+        // push-versus-rebuild threshold (rebuild needs an upper bound >= 17 on a receiver >= 8)
+        let lo = *cfg.prios.iter().min().unwrap();
+        let hi = *cfg.prios.iter().max().unwrap();
+        let mut seqs: Vec<Vec<Pair>> = vec![];
+        let mut keys: Vec<u32> = vec![];
+        if let (Some(&f), Some(&l)) = (present.first(), present.last()) {
+            keys.extend([f, present[present.len() / 2], l]);
+        }
+        keys.push(cfg.k - 1);
+        keys.dedup();
+        for &k in &keys {
+            for p in [lo, hi] {
+                seqs.push(vec![(k, 100, p)]);
+            }
+            seqs.push(vec![(k, 100, hi), (k, 101, lo)]);
+        }
+        // every stored item rewritten (mirrored priorities): nothing new, the order changes
+        seqs.push(present.iter().map(|&k| (k, 100, (lo as i64 + hi as i64 - m[&k].1 as i64) as i32)).collect());
+        // every stored item rewritten, then new items
+        let mut s2: Vec<Pair> = present.iter().map(|&k| (k, 100, if k % 2 == 0 { hi } else { lo })).collect();
+        s2.push((cfg.k - 1, 100, hi));
+        seqs.push(s2);
+        for s in seqs {
+            let l = s.len();
+            out.push(Op::Extend(s.clone(), Hint { lo: l, hi: Some(l) }));
+            out.push(Op::Extend(s.clone(), Hint { lo: 0, hi: Some(l.max(17)) }));
+            out.push(Op::Extend(s, Hint { lo: 0, hi: None }));
+        }
+    } else if a & A_EXTEND != 0 {
         let mut hints = vec![None, Some(Hint { lo: 0, hi: None })];
         if a & A_EXTEND_HUGE_HINT != 0 {
             hints.push(Some(Hint { lo: 0, hi: Some(usize::MAX) }));
